@@ -78,7 +78,19 @@ class HybridRunner(ScenarioRunner):
                     output[series_name] = {} if series_name not in output.keys() else output[series_name]
                     output[series_name][t] = value
 
-        return pd.DataFrame(output).fillna(0)
+        df = pd.DataFrame(output).fillna(0)
+
+        # a selected state that no agent of this type was in at any recorded time has no column yet:
+        # it was empty all the time, so its aggregates are reported as 0 like every other empty cell
+        if len(agent_states) > 0 and len(agent_properties) > 0 and len(agent_property_types) > 0:
+            for state in agent_states:
+                for agent_property in agent_properties:
+                    for property_type in agent_property_types:
+                        column = state + "_" + agent_property + "_" + property_type
+                        if column not in df.columns:
+                            df[column] = 0.0
+
+        return df
 
     def run_scenario(self, abm_results_dict, return_format, scenarios, equations=[], agents=[], scenario_managers=[], progress_bar=False, agent_states=[], agent_properties=[], agent_property_types=[], rerun=False, widget=False):
         """
